@@ -133,7 +133,16 @@ def run(ctx):
                             idx = mm.group(1) or mm.group(4)
                             bm = mm.group(2) or mm.group(3)
                             bit = (p, re.sub(r'(sext|zext)\.i\d+\((.*)\)', r'\2', idx), bm)
-                    if bit and '@convert_list_to_bitmap' in bit[2] and found is None:
+                    def is_list_bitmap(bm):
+                        if '@convert_list_to_bitmap' in bm:
+                            return True
+                        # the bitmap may be computed by the callers and handed in: every call site must pass the converted list
+                        pm = re.match(r'^arg(\d+)$', unwrap_casts(bm))
+                        if pm and f.linkage == 'internal':
+                            sites = cg.callers_of(f.name)
+                            return bool(sites) and all('@convert_list_to_bitmap' in Canon(P, g_).val(c_.ops[int(pm.group(1))]) for g_, c_ in sites)
+                        return False
+                    if bit and is_list_bitmap(bit[2]) and found is None:
                         found = (s, bit, F)
         inst = f'{fname}: selection loop'
         if not found:
@@ -213,6 +222,17 @@ def run(ctx):
         for c in [i for i in f.insts() if i.op == 'call' and i.callee in ('@isa_l_get_decode_matrix', '@get_inverse_rows', '@convert_list_to_bitmap', '@get_num_missing_elements')]:
             g = P.fns.get(c.callee)
             lists = [ai for ai, (ty, n) in enumerate(g.params) if ty == 'i32*'] if g is not None else []
+            if not lists and g is not None:
+                # the helper takes the bitmap of the list instead of the list: the bitmap must be the one of the operation's own list
+                for ai, o in enumerate(c.ops[:len(g.params)]):
+                    od = f.defs.get(strip_int_casts(f, o))
+                    if od is not None and od.op == 'call' and od.callee == '@convert_list_to_bitmap':
+                        inst = f'{fname}: {c.callee[1:]} at line {c.line} receives the bitmap of the missing-index list of the operation'
+                        if strip_ptr_casts(f, od.ops[0]) == ml:
+                            r.ok(inst, func=f.name, loc=c.loc)
+                        else:
+                            r.fail(inst, func=f.name, sig=f'{c.callee[1:]} given bitmap of {C.val(od.ops[0])[:40]}', loc=c.loc,
+                                   msg=f'{c.callee[1:]} is called with the bitmap of {C.val(od.ops[0])} instead of the missing-index list of {fname}: the helpers no longer agree on the erasure set')
             for ai in lists[-1:]:
                 inst = f'{fname}: {c.callee[1:]} at line {c.line} receives the missing-index list of the operation'
                 if strip_ptr_casts(f, c.ops[ai]) == ml:
@@ -227,22 +247,40 @@ def run(ctx):
                  'a cursor that stays 0 combines every missing column with the first missing row (wrong parity rebuild for >= 2 missing data)')
     g = P.fn('get_inverse_rows')
     Cg = Canon(P, g)
-    calls = [i for i in g.insts() if i.op == 'call' and i.callee == '@mult_and_xor_row']
+    # the row combination `to_row[i] ^= gf_mul(val, from_row[i])` is recognised by the call through the gf_mul parameter (the helper
+    # mult_and_xor_row is file-local and inlined by the build step, so it does not matter whether the source has it as a function)
+    fparams = {n for ty, n in g.params if ty.rstrip().endswith(')*')}
+    def is_gf_mul(callee):
+        if callee in fparams:
+            return True
+        d_ = g.defs.get(callee)
+        if d_ is not None and d_.op == 'load':
+            fl_ = fields_in_path(access_path(P, g, d_.ops[0])[1])
+            return bool(fl_) and fl_[-1] == ('isa_l_descriptor', 'gf_mul')
+        return False
+    calls = [i for i in g.insts() if i.op == 'call' and i.callee and i.callee.startswith('%') and is_gf_mul(i.callee)]
     if not calls:
-        raise AnalysisBroken('anchor vanished: get_inverse_rows does not call mult_and_xor_row')
+        raise AnalysisBroken('anchor vanished: get_inverse_rows does not call its gf_mul parameter')
     from ..poly import PolyCtx, Poly
     from ..loops import loops_of, innermost
     pcg = PolyCtx(P, g, Cg)
     LSg = loops_of(P, g, pcg)
+    column_loop = [None]
     def cursor_check(ptr_operand, at_block, inst, what, loc):
         """the offset of ptr_operand uses exactly one counter of the innermost loop that starts at 0 and is incremented by one in
         the iterations that pass at_block (and only there is irrelevant: the other branch has its own counter)"""
-        L0 = innermost(LSg, at_block)
-        if L0 is None:
+        enclosing = sorted([l_ for l_ in LSg if at_block in l_.body], key=lambda l_: len(l_.body))
+        L0 = column_loop[0]
+        if L0 is None or L0 not in enclosing:
             r.fail(inst, func=g.name, sig=f'{what} outside the column loop', loc=loc, msg=f'{what} is not inside the loop over the columns')
             return
         L = L0.via(at_block)
         root, off = L.pc.ptr(ptr_operand)
+        # counters / walking pointers of the loops inside the column loop (the row combination) are expressed through their start values
+        for Li in enclosing[:enclosing.index(L0)]:
+            pit = Li.ptr_at_iteration(root, off)
+            if pit is not None:
+                root, off = pit
         cands = []
         for phi in L.phis:
             if phi.res in off.atoms():
@@ -254,17 +292,36 @@ def run(ctx):
         own = [w for w in walking if w[0].res not in hg]
         if own:
             r.ok(inst + f': counter {own[0][0].res} starts at 0 and advances by one in this branch', func=g.name, loc=loc, facts={'offset': str(off)})
-        elif cands and all(st is not None and st.is_zero() for _, _, st in cands if _ .res not in hg) and any(p.res not in hg for p, _, _ in cands):
+        elif cands and all(st is not None and st.is_zero() for p_, _, st in cands if p_.res not in hg) and any(p.res not in hg for p, _, _ in cands):
             r.fail(inst, func=g.name, sig=f'{what}: cursor not advanced in its branch', loc=loc,
                    msg=f'{what} is indexed by a cursor that is not incremented where it is used (offset {off}): every column of this kind lands on the first row/column')
         else:
             r.fail(inst, func=g.name, sig=f'{what}: offset {str(off)[:50]} has no walking counter', loc=loc,
                    msg=f'{what} has offset {off}: not indexed by a counter that starts at 0 and advances by one with each column of its kind')
+    def from_call(v):
+        d_ = g.defs.get(strip_int_casts(g, v))
+        return d_ is not None and d_.op == 'call'
+    xor_stores = [i for i in g.insts() if i.op == 'store' and g.defs.get(strip_int_casts(g, i.ops[0])) is not None and g.defs[strip_int_casts(g, i.ops[0])].op == 'xor']
+    dest_roots = {pcg.ptr(i.ops[1])[0] for i in xor_stores} | {Lx.pc.ptr(i.ops[1])[0] for i in xor_stores for Lx in LSg if i.bb in Lx.body}
+    # the column loop: the closest loop that holds both the row combination (gf_mul) and the plain xor of an available column
+    plain = [i for i in xor_stores if not any(from_call(o) for o in g.defs[strip_int_casts(g, i.ops[0])].ops)]
+    both = sorted([Lx for Lx in LSg if any(c_.bb in Lx.body for c_ in calls) and any(i.bb in Lx.body for i in plain)], key=lambda Lx: len(Lx.body))
+    column_loop[0] = both[0] if both else None
+    nsel = 0
     for c in calls:
-        cursor_check(c.ops[1], c.bb, 'missing-data row selector (second argument of mult_and_xor_row)', 'the inverse row selected for a missing data column', c.loc)
+        for a in c.ops:
+            d_ = g.defs.get(strip_int_casts(g, a))
+            if d_ is not None and d_.op == 'load':
+                Lc = innermost(LSg, c.bb)
+                rt = (Lc.pc if Lc is not None else pcg).ptr(d_.ops[0])[0]
+                if rt in dest_roots:
+                    nsel += 1
+                    cursor_check(d_.ops[0], c.bb, 'missing-data row selector (the row multiplied through gf_mul)', 'the inverse row selected for a missing data column', c.loc)
+    if not nsel:
+        r.undecided('missing-data row selector', loc=calls[0].loc, msg='no gf_mul argument is read from the inverse-row buffer')
     # available cursor: xor-store index (l*k) + cursor
-    xs = [i for i in g.insts() if i.op == 'store' and g.defs.get(strip_int_casts(g, i.ops[0])) is not None and g.defs[strip_int_casts(g, i.ops[0])].op == 'xor'
-          and innermost(LSg, i.bb) is not None and any(cc.bb in innermost(LSg, i.bb).body for cc in calls)]
+    xs = [i for i in xor_stores if not any(from_call(o) for o in g.defs[strip_int_casts(g, i.ops[0])].ops)
+          and any(i.bb in Lx.body and any(cc.bb in Lx.body for cc in calls) for Lx in LSg)]
     if not xs:
         r.fail('available-column cursor', func=g.name, sig='no xor-store for available columns', loc=g.mod.src, msg='no store of the form row[cursor] ^= coefficient in the column loop')
     for s_ in xs[:1]:
